@@ -400,6 +400,7 @@ def r18_3(ctx):
                 ctx.missing(R, 'anchor:%s::%s' % (ty, m), 'method not found')
                 continue
             ok = False
+            per_path = []
             for p in explore(f, max_visits=1):
                 if p.end == 'return':
                     rv = p.ret()
@@ -409,7 +410,17 @@ def r18_3(ctx):
                             good = is_call(v, AUT + m) and v[2][0] == ('field', ('param', f.local_name(1), 1), str(i))
                             if m == 'accept':
                                 good = good and v[2][1] == ('field', ('param', f.local_name(2), 2), str(i)) and v[2][2] == ('param', f.local_name(3), 3)
+                                if not good and is_call(v, AUT + 'start') and p.decisions:
+                                    # a shortcut path that puts a component back into its START state: whatever the test, a component that was
+                                    # dead (or anywhere else) is revived and the Boolean combination no longer describes the input read so far
+                                    ctx.violation(R, '%s::accept:restart' % ty.split('<')[0], '%s::accept returns component %d in its start state on a path (%s) instead of stepping it: the component forgets the input read so far' % (
+                                        ty.split('<')[0], i, fmt(p.decisions[-1][2])[:80]), fn=f)
                             ok = ok and good
+                        per_path.append(ok)
+            if per_path and any(per_path) and not all(per_path):
+                ok = True           # the straight path is componentwise; shortcut paths were judged above (restart) ...
+                if not any(v_['key'].endswith('accept:restart') and v_.get('fn') == f.path for v_ in ctx.violations):
+                    ctx.undecided(R, '%s::%s:shortcut' % (ty.split('<')[0], m), '%s::%s has a path that does not apply %s to each component; the rule does not judge that shortcut' % (ty.split('<')[0], m, m), fn=f)
             ctx.check(R, ok, '%s::%s' % (ty.split('<')[0], m), '%s::%s must apply %s to each component with that component\'s own state' % (ty.split('<')[0], m, m), fn=f)
     for m in ('start', 'is_match', 'can_match', 'will_always_match', 'accept', 'accept_eof'):
         f = lib.fn("<&'a T as inner_automaton::Automaton>::" + m)
